@@ -326,7 +326,9 @@ Builtin(C, name, vs, st) ==
             IF n # 3 \/ vs[1].t # "str" \/ vs[2].t # "int" \/ vs[3].t # "int" THEN RV(VVoid, Fault(st, "stuck:type"))
             ELSE IF I64IsNeg(vs[2].i) \/ I64IsNeg(vs[3].i) \/ ~I64IsSmall(vs[2].i) \/ ~I64IsSmall(vs[3].i) THEN RV(VVoid, Fault(st, "unspecified:substring"))
             ELSE LET a == I64ToInt(vs[2].i)  l == I64ToInt(vs[3].i)  L == Len(vs[1].s) IN
-                 RV(VStr(IF a >= L THEN "" ELSE SubSeq(vs[1].s, a + 1, IF a + l > L THEN L ELSE a + l)), st)
+                 \* a start at or beyond the end: "" in compiled code, an error value in the evaluator -> unspecified
+                 IF a >= L /\ ~(a = L /\ l = 0) THEN RV(VVoid, Fault(st, "unspecified:substring"))
+                 ELSE RV(VStr(IF a >= L THEN "" ELSE SubSeq(vs[1].s, a + 1, IF a + l > L THEN L ELSE a + l)), st)
      [] name = "str_contains" ->
             IF n # 2 \/ vs[1].t # "str" \/ vs[2].t # "str" THEN RV(VVoid, Fault(st, "stuck:type"))
             ELSE RV(VBool(Contains(vs[1].s, vs[2].s)), st)
